@@ -1115,5 +1115,5 @@ MANIFEST = {
     "note": "Trusted: pysam's VCF parser, pandas/numpy, the reference model (second formulations in selftest/vcf.py). Not covered: "
     "multi-allelic records, files beyond a handful of records (the statement's 500), VCFs without samples, GATK/Mutect header "
     "pairing, indel/symbolic row ends, hmm segmentation with variants.",
-    "technique": "exhaustive enumeration of synthetic VCF files x reader configurations x segment tables on the real code against a record -> row reference model",
+    "technique": "exhaustive enumeration of synthetic VCF files x reader configurations x segment tables on the real code against a record -> row reference model; ask / edit-in-place / ask-again history on every multi-record file",
 }
